@@ -193,6 +193,10 @@ def processQ (r : Run) (line : String) (st : Stats) : Run × Stats :=
     let implEv := " ".intercalate evParts
     -- monitors on the implementation's tokens
     let mon00 := fifoEvent r.mon tid (evParts.getD 0 "") (evParts.getD 1 "") (evParts.getD 6 "")
+    let mon00 := if r.sc.comp != "thread" then
+        { mon00 with hb := hbEvent mon00.hb tid (evParts.getD 0 "") (evParts.getD 1 "") (evParts.getD 2 "") (evParts.getD 3 "")
+                            (evParts.getD 6 "1" == "1") }
+      else mon00
     let mon0 := if r.sc.comp == "thread" then
         { mon00 with th := threadEvent mon00.th tid (evParts.getD 0 "") (evParts.getD 1 "")
                             ((parseHexOrNat (evParts.getD 4 "0")).getD 0) ((parseHexOrNat (evParts.getD 5 "0")).getD 0) }
@@ -203,8 +207,12 @@ def processQ (r : Run) (line : String) (st : Stats) : Run × Stats :=
       else mon00
     let mon := toks.foldl (fun m tok =>
       let r' := { r with mon := m }
-      if tok.startsWith "G+" then fifoGrant (stepTok m tok) tid tok
-      else if tok.startsWith "G" then stepTok m tok
+      if tok.startsWith "G+" then
+        let m1 := fifoGrant (stepTok m tok) tid tok
+        { m1 with hb := hbTok m1.hb tid tok }
+      else if tok.startsWith "G" then
+        let m1 := stepTok m tok
+        { m1 with hb := hbTok m1.hb tid tok }
       else if tok.startsWith "R" && r.sc.comp == "thread" then
         { m with th := threadRes r.sc.seq tid m.th ((r.sc.tprogs.getD tid #[])[((tok.drop 1).toString.splitOn "=").head!.toNat?.getD 0]?) tok }
       else if tok.startsWith "X" && tok.length > 1 && r.sc.comp == "opt" then { m with opt := optTok m.opt tid tok }
@@ -297,9 +305,10 @@ partial def loop (h : IO.FS.Stream) (cur : Option Run) (pend : Scen) (st : Stats
       | none, some m, _ => s!"FAIL {m}"
       | none, none, some m => s!"FAIL {m}"
       | none, none, none => "ok"
+    let hbS := match r.mon.hb.bad with | some m => s!"FAIL {m}" | none => "ok"
     let leak := if status == "ok" && monS == "ok" && !r.mon.grants.isEmpty then
       s!"FAIL guard: {r.mon.grants.length} grant(s) never released at the end" else monS
-    IO.println s!"RES {r.sc.id} end={status} steps={r.step} corr={corr} ;; mon={leak}"
+    IO.println s!"RES {r.sc.id} end={status} steps={r.step} corr={corr} ;; mon={leak} ;; hb={hbS}"
     let st := { st with scen := st.scen + 1,
                         mismatches := st.mismatches + (if corr == "ok" then 0 else 1),
                         monFails := st.monFails + (if leak == "ok" then 0 else 1),
